@@ -14,9 +14,12 @@ Conventions
 * Error cases are `Except PyErr`; after an exception the state of the callback is not modelled (the
   exception propagates out of `fit`).
 * Not modelled: `verbose=True` printing to stdout; pre-existing content of a log file opened in append
-  mode (the model's `log` is the list of rows THIS object appended); attribute syntax `ev.name` for names
-  that are shadowed by real attributes (`period`, `last`, `epochs`, …) — `__getitem__`/`__getattr__` is
-  modelled as the function it is.
+  mode (the model's `log` is the list of rows THIS object appended).
+* Names are arbitrary strings.  Subscripting (`ev[name]`, `stats[name]`) calls `__getattr__` directly and is
+  modelled as the function it is (`getItem`, `obsStatGet`); ATTRIBUTE syntax (`ev.name`, `getattr(ev, name)`)
+  goes through Python's normal lookup first (`pyGetattr`): a name the object already has as an attribute,
+  property or method (`period`, `last`, `log`, `epochs`, `data`, …) yields that attribute and `__getattr__` is
+  not called.
 
 This file is import-free (only QV.Model.*).
 -/
@@ -95,6 +98,24 @@ def runWith {S E : Type} (step : S → E → Except PyErr S) : S → List E → 
     | .ok s' => runWith step s' rest
     | .error e => .error e
 
+/-! ### attribute syntax on an object whose class defines `__getattr__` -/
+
+/-- what `obj.name` evaluates to: an attribute found by Python's normal lookup (instance dict, class attributes,
+properties, methods — represented by its name), or the value produced by `__getattr__(name)` -/
+inductive AttrResult (R : Type) where
+  | own (name : String)
+  | dynamic (r : R)
+  deriving Repr, DecidableEq
+
+/-- Python attribute lookup on an instance of a class that defines `__getattr__` (and not `__getattribute__`):
+`__getattr__` is consulted ONLY when the normal lookup fails; `own` lists the names the normal lookup resolves. -/
+def pyGetattr {R : Type} (own : List String) (dyn : String → Except PyErr R) (name : String) :
+    Except PyErr (AttrResult R) :=
+  if own.contains name then .ok (.own name)
+  else match dyn name with
+    | .ok r => .ok (.dynamic r)
+    | .error e => .error e
+
 /-! ### CSV log (csv.DictWriter) -/
 
 /-- column keys of the CSV logs: `"epoch"`, a metric name, or `obs_name + "_" + stat_name`.
@@ -168,6 +189,10 @@ def getValue (s : EvalState X V) (name : String) (index : Option Int) : Except P
   match pyIndex s.past idx with
   | .error e => .error e
   | .ok rec => rec.2.getItem name
+
+/-- `ev.name` / `getattr(ev, name)` (attribute syntax) for an evaluator whose normal lookup resolves the names `own` -/
+def getAttr (own : List String) (s : EvalState X V) (name : String) : Except PyErr (AttrResult (List X)) :=
+  pyGetattr own s.getItem name
 
 /-- `clear_history()` (metric_evaluator.py:107-111, observable_evaluator.py:158-161): the log file is untouched -/
 def clearHistory (s : EvalState X V) : EvalState X V := { s with past := [], last := [] }
@@ -309,6 +334,11 @@ def obsStatGet {V : Type} (data : List (Dict String V)) (statistic : String) : E
   match mapE (fun (d : Dict String V) => d.getItem key) data with
   | .ok xs => .ok xs
   | .error _ => .error .AttributeError
+
+/-- `stats.statistic` / `getattr(stats, statistic)` on an `ObservableStatistics` (own names: `data`, dunders) -/
+def obsStatGetAttr {V : Type} (own : List String) (data : List (Dict String V)) (statistic : String) :
+    Except PyErr (AttrResult (List V)) :=
+  pyGetattr own (obsStatGet data) statistic
 
 /-- `evaluator[observable][statistic]` -/
 def obsSeries {V : Type} (s : EvalState (Dict String V) V) (observable statistic : String) : Except PyErr (List V) :=
